@@ -2189,6 +2189,30 @@ class Interp:
             frame.locals.pop(nn, None)
             frame.locals.pop(hn, None)
             broke = False
+        elif isinstance(it, AObj) and it.cls is not None and self.repo.find_method(it.cls, "__iter__") is None \
+                and self.repo.find_method(it.cls, "__getitem__") is not None:
+            # old-style sequence protocol: __getitem__(0), (1), ... until IndexError, re-evaluated against the object's
+            # current state at every step (so a body that shrinks the container makes the walk skip elements)
+            broke = False
+            i = 0
+            while True:
+                try:
+                    item = self.call_method(it, "__getitem__", [i], {}, st.iter)
+                except RaiseEx as r:
+                    if r.exc == "IndexError":
+                        break
+                    raise
+                i += 1
+                if i > 10000:
+                    raise CannotDecide("sequence iteration does not end")
+                self.assign(st.target, item, frame)
+                try:
+                    self.exec_block(st.body, frame)
+                except BreakEx:
+                    broke = True
+                    break
+                except ContinueEx:
+                    continue
         elif isinstance(it, list):
             # Python's list iterator: index-based, sees mutations of the list made by the body
             broke = False
